@@ -335,6 +335,7 @@ def expectation(frame, dims, flags, world):
     items_ident = {c["dim"] for c in frame.cols if c["role"] == "dim" and c.get("ident") == "items"}
     # ---- records
     pos = {d.name: k for k, d in enumerate(dl)}
+    imap = [{it: i for i, it in enumerate(d.items)} for d in dl]
     K = {}
     U = []
     dupK = False
@@ -347,7 +348,7 @@ def expectation(frame, dims, flags, world):
             d = dl[pos[c["dim"]]]
             if cell is None:
                 bad = "blank_label"
-            elif cell not in d.items:
+            elif cell not in imap[pos[c["dim"]]]:
                 bad = bad or ("unknown_in_items_column" if c["dim"] in items_ident else "unknown")
             base[c["dim"]] = cell
         for d in dl:
@@ -369,7 +370,7 @@ def expectation(frame, dims, flags, world):
             lab = dict(base)
             if widedim is not None:
                 lab[widedim.name] = witem
-            idx = tuple(dl[k].items.index(lab[dl[k].name]) for k in range(len(dl)))
+            idx = tuple(imap[k][lab[dl[k].name]] for k in range(len(dl)))
             if idx in K:
                 dupK = True
             K.setdefault(idx, []).append(val)
@@ -382,23 +383,25 @@ def expectation(frame, dims, flags, world):
                 either = either or "items_column_incomplete"
     if widedim is not None and len(wide_items) != len(widedim.items):
         either = either or "wide_columns_incomplete"
+    if not frame.rows:
+        either = either or "empty_table"
     expected = np.zeros(shape)
     for idx, vals in K.items():
         v = vals[0]
         expected[idx] = 0.0 if v is None else v
     if dupK:
-        return {"mode": "raise", "why": "duplicate", "expected": None}
+        return {"mode": "raise", "why": "duplicate", "expected": None, "K": K}
     if len(set(U)) != len(U) and not either:
         # unknown-item rows that duplicate each other: flodym checks duplicates before dropping extras; the property is silent
         either = "duplicated_unknown_rows"
     if either:
         return {"mode": "either", "why": either, "expected": expected, "K": K}
     if U and not allow_extra:
-        return {"mode": "raise", "why": "unknown_item"}
+        return {"mode": "raise", "why": "unknown_item", "K": K}
     missing = size - len(K)
     blank = sum(1 for v in K.values() if v[0] is None)
     if (missing or blank) and not allow_missing:
-        return {"mode": "raise", "why": "missing" if missing else "blank_value"}
+        return {"mode": "raise", "why": "missing" if missing else "blank_value", "K": K}
     why = "complete" if not (missing or blank or U) else "lenient"
     return {"mode": "return", "why": why, "expected": expected, "K": K}
 
@@ -413,12 +416,12 @@ class IoChan(Engine):
     LEVEL = {"C11": "exploration", "C12": "fault_enumeration"}
 
     def tasks(self, prop, tier, seed):
-        n = {"quick": 3000, "thorough": 80000}[tier]
+        n = {"quick": 6000, "thorough": 120000}[tier]
         tasks = [{"kind": "trip", "idx": k} for k in range(n)]
         if prop == "C12":
-            ne = {"quick": 40, "thorough": 2500}[tier]
+            ne = {"quick": 96, "thorough": 8000}[tier]
             tasks += [{"kind": "enum", "idx": k} for k in range(ne)]
-        nl = {"quick": 12, "thorough": 200}[tier]
+        nl = {"quick": 32, "thorough": 600}[tier]
         tasks += [{"kind": "long", "idx": k} for k in range(nl)]
         return tasks
 
@@ -437,6 +440,11 @@ class IoChan(Engine):
     def generate(self, task, prop, seed, tier):
         rng = Rng(self.NAME, prop, seed, task["kind"], task["idx"])
         world = gen_world(rng, prop, long_dim=(task["kind"] == "long"))
+        if task["kind"] == "enum":
+            cap = 12 if tier == "quick" else 27
+            while int(np.prod([len(d["items"]) for d in world["dims"]])) > cap:
+                world = gen_world(rng, prop)
+            world["enum_flags"] = task["idx"] % 4
         if prop == "C11":
             ops = [self.gen_fault(rng, prop) for _ in range(rng.randint(0, 3))]
         elif task["kind"] == "long":
@@ -469,6 +477,8 @@ class IoChan(Engine):
     def _enumerate(self, run, prop, tier):
         """every single record / column fault x 4 flag combinations for this world and layout"""
         world = run["world"]
+        if world["medium"] == "excel_reader":
+            world["medium"] = "csv_reader"  # openpyxl round trips are too slow for the enumeration; sampled in 'trip' tasks
         dims = make_dims(world)
         size = dims.total_size
         nrows = size  # upper bound (wide layouts have fewer rows; row index is taken modulo)
@@ -483,7 +493,7 @@ class IoChan(Engine):
                 faults.append({"f": kind, "row": 0, "col": col, "pos": 0, "item": 0, "seed": 0})
         agg = None
         n = 0
-        for flags in ([False, False], [True, False], [False, True], [True, True]):
+        for flags in [([False, False], [True, False], [False, True], [True, True])[world.get("enum_flags", 0)]]:
             for f in faults:
                 w = _copy.deepcopy(world)
                 w["flags"] = flags
@@ -589,6 +599,9 @@ class IoChan(Engine):
         flags = list(world["flags"])
         if sparse and X.values.size != np.count_nonzero(X.values):
             flags[0] = True  # the documented way to import sparse data
+        if world["medium"] != "df":
+            # text and spreadsheet media cannot hold an entirely blank row: pandas skips it when reading
+            frame.rows = [r for r in frame.rows if any(c is not None for c in r)]
         exp = expectation(frame, dims, flags, world)
         # ---------------- medium
         consumer = world["consumer"]
@@ -598,11 +611,13 @@ class IoChan(Engine):
         target = FlodymArray(dims=dims, values=np.full(shape, SENTINEL), name="T")
         tsnap = target.values.copy()
         outcome, result, fired = self._import(st, frame, world, dims, medium, consumer, flags, medium_faults, target, tmp, exp)
-        if fired.get("truncate") == "boundary":
-            # a cut at a line boundary is simply "the last rows were dropped": judge it like any other table
+        if fired.get("truncate"):
+            # complete lines are ordinary records.  A cut at a line boundary is simply "the last rows were dropped"
+            # and is judged like any other table; after a mid-line cut the torn line is exempt (see _judge_truncated)
             frame.rows = frame.rows[:fired["complete_rows"]]
             exp = expectation(frame, dims, flags, world)
-            del fired["truncate"]
+            if fired["truncate"] == "boundary":
+                del fired["truncate"]
         st.log.add("outcome", outcome=outcome[0], exc=outcome[1], mode=exp["mode"], why=exp["why"],
                    v=vdig(result.values) if result is not None else None)
         st.sig.append((lay["header"], wide is not None, lay["index"], medium, consumer, tuple(flags), exp["mode"], exp["why"], outcome[0],
@@ -613,8 +628,10 @@ class IoChan(Engine):
         self._judge(st, prop, exp, outcome, result, fired, X, target, tsnap, consumer, tags, dims)
         # ---------------- recovery: the intact table into the same target
         if prop == "C12" and consumer == "set_values_from_df" and (outcome[0] != "ret" or exp["mode"] != "return" or exp["why"] != "complete"):
-            self._cnt(st, "recovery-after-fault")
             rflags = [bool(sparse and X.values.size != np.count_nonzero(X.values)), False]
+            if expectation(intact, dims, rflags, world)["mode"] != "return":
+                return  # the intact table itself is outside what the layout promises (e.g. sparse + items-only headers)
+            self._cnt(st, "recovery-after-fault")
             try:
                 df = to_dataframe(intact, lay["index"])
                 target.set_values_from_df(df, allow_missing_values=rflags[0], allow_extra_values=rflags[1])
@@ -628,6 +645,7 @@ class IoChan(Engine):
     def _judge_to_df(self, st, frame, dims, X, wide, sparse, tags):
         self._cnt(st, "to_df-lists-every-entry")
         dl = list(dims)
+        imap = [{it: i for i, it in enumerate(d.items)} for d in dl]
         seen = {}
         for r in frame.rows:
             base = {}
@@ -640,7 +658,7 @@ class IoChan(Engine):
                     if c["role"] == "wide":
                         lab[dl[wide].name] = c["item"]
                     try:
-                        idx = tuple(d.items.index(lab[d.name]) for d in dl)
+                        idx = tuple(imap[k][lab[d.name]] for k, d in enumerate(dl))
                     except (KeyError, ValueError):
                         raise Violation("to_df-lists-every-entry", f"to_df lists a row with labels {lab} that are not labels of the array",
                                         cls="to_df-wrong", **tags)
@@ -678,6 +696,7 @@ class IoChan(Engine):
                 with open(path, "rb") as fh:
                     blob = fh.read()
                 cut = max(1, min(len(blob) - 1, len(blob) * trunc["frac"] // 100))
+                cut = min(len(blob) - 1, max(cut, blob.find(b"\n") + 2))  # the header line stays intact
                 if trunc["boundary"]:
                     nl = blob.rfind(b"\n", 0, cut)
                     first = blob.find(b"\n")
@@ -696,7 +715,9 @@ class IoChan(Engine):
                     fired["complete_rows"] = max(0, n_complete)
         elif medium == "excel_reader":
             path = os.path.join(tmp, "table.xlsx")
-            df.to_excel(path, sheet_name="data", index=isinstance(df.index, pd.MultiIndex) or df.index.name is not None)
+            # "contiguous data starting in A1": no merged index cells
+            dfx = df.reset_index() if (isinstance(df.index, pd.MultiIndex) or df.index.name is not None) else df
+            dfx.to_excel(path, sheet_name="data", index=False)
         import pandas.io.common as pic
         real_open = open
 
@@ -831,7 +852,11 @@ class IoChan(Engine):
         if outcome[0] != "ret":
             self._no_partial(st, outcome[0], consumer, target, tsnap, tags)
             return
-        # returned: every entry must be either 0 or the value the *intact-before-truncation* frame says
+        if exp["mode"] == "raise" and exp["why"] in ("duplicate", "unknown_item", "unmatched_value_columns", "missing_dim_column"):
+            # the torn line cannot cure a fault that the complete lines already carry
+            raise Violation("refuses-bad-data", f"a truncated file whose complete lines carry a fault of class '{exp['why']}' was imported "
+                                                f"without an error", cls="refuses:" + exp["why"], **tags)
+        # returned: every entry must be either 0 or the value its unique complete line says
         # (a torn value like 5012.75 -> 5 is exempt: at most the entries of one row may deviate)
         K = exp.get("K") or {}
         got = result.values
@@ -909,7 +934,7 @@ class IoChan(Engine):
         return base + ("Faults: record level (drop / duplicate same / duplicate other value / relabel->unknown / relabel->other known / blank value / "
                        "blank label), column level (drop a dimension column, add an unmatched value column, rename a wide item column), CSV truncation at "
                        "a line boundary or mid-line, OSError on open, interrupts inside set_values_from_df; all four flag combinations. 'enum' tasks "
-                       "enumerate every single record/column fault x 4 flag combinations for a sampled world. distinct/non-trivial as for C11")
+                       "enumerate every single record/column fault for a sampled world and layout (<= 12 records in the quick tier, <= 27 in the thorough tier) under one of the 4 flag combinations (task index mod 4). distinct/non-trivial as for C11")
 
     def components(self, prop):
         return {"real": ["flodym._df_to_flodym_array", "flodym.flodym_arrays (to_df / from_df / set_values_from_df)", "flodym.data_reader (CSV / Excel parameter readers)",
